@@ -262,6 +262,10 @@ def shapes(tier):
     out.append(("hardware_address_of_7_octets_is_not_the_6_octet_one", lambda: [P(chaddr=True, apply={A: "value"}, address=True), P(match_all=True, apply={B: "value"})], [A, B], {}, 7))
     out.append(("conditionless_nested_twice", lambda: [P(apply={A: "value"}, children=[P(apply={B: "value"}, children=[P(chaddr=True, apply={A: "value"})]), P(subnet=12)]),
                                                        P(chaddr=True, apply={A: "null"})], [A, B], {}))
+    # several conditions in ONE policy are ANDed: any single failing condition (first, middle or last) means the policy does not apply
+    out.append(("all_conditions_of_one_policy_must_hold", lambda: [P(chaddr=True, subnet=24, match_opt={60: "value"}, apply={A: "value"}, address=True),
+                                                                   P(chaddr=True, subnet=16, apply={B: "value"}), P(match_all=True, apply={A: "null"})], [A, B], {60: True}))
+    out.append(("hardware_address_and_option_condition", lambda: [P(chaddr=True, match_opt={60: "null"}, apply={A: "value"}), P(match_all=True, subnet=8, apply={B: "value"})], [A, B], {}))
     if tier == "thorough":
         out.append(("depth3", lambda: [P(apply={A: "value"}, children=[P(subnet=24, apply={B: "value"}, children=[P(chaddr=True, apply={A: "null", B: "value"}, address=True), P(match_all=True, apply={A: "value"})]),
                                                                      P(match_all=True, apply={B: "null"})])], [A, B, NETMASK], {}))
